@@ -12,7 +12,6 @@ pub fn def() -> PropDef {
         assumptions: BASE_ASSUMPTIONS,
         floor: |t| t.pick(10_000, 100_000),
         run,
-        panics_are_verdict: false,
     }
 }
 
